@@ -2,7 +2,8 @@
 From Coq Require Import List Bool Arith Ascii String NArith.
 From UV.Base Require Import Order Res.
 From UV.Py Require Import PyStr.
-From UV.Schemes Require Import Common Generic LegacyOpenssl Gentoo GentooProofs Debian DebianProofs Semver Rpm Gem GemProofs Arch Openssl.
+From UV.Schemes Require Import Common Generic LegacyOpenssl Gentoo GentooProofs Debian DebianProofs Semver Rpm Gem GemProofs Arch Openssl Pypi Maven.
+From UV.Ref Require Pep440.
 Import ListNotations.
 
 Record vsch := {
@@ -64,12 +65,20 @@ Definition sch_openssl : vsch :=
   {| vT := osslv; v_valid := ossl_valid; v_ctor := ossl_ctor; v_str := ossl_str;
      v_ops := fun a b => Ok (ossl_ops a b); v_hasheq := ossl_hasheq; v_cmp := ossl_cmp; v_shape := ossl_ok |}.
 
+Definition sch_pypi : vsch :=
+  {| vT := Pep440.pep; v_valid := fun n => Ok (pypi_valid n); v_ctor := pypi_ctor; v_str := pypi_str;
+     v_ops := fun a b => Ok (pypi_ops a b); v_hasheq := pypi_hasheq; v_cmp := Pep440.pep_cmp; v_shape := fun _ => true |}.
+Definition sch_maven : vsch :=
+  {| vT := mavenv; v_valid := fun n => Ok (maven_valid n); v_ctor := maven_ctor; v_str := maven_str;
+     v_ops := fun a b => Ok (maven_ops a b); v_hasheq := maven_hasheq; v_cmp := maven_cmp; v_shape := fun _ => true |}.
+
 Definition schemes : list (string * vsch) :=
   [("GenericVersion", sch_generic); ("Version", sch_generic); ("LegacyOpensslVersion", sch_legacy);
    ("SemverVersion", sch_semver); ("NginxVersion", sch_semver); ("GolangVersion", sch_golang); ("ComposerVersion", sch_golang);
    ("GentooVersion", sch_gentoo); ("DebianVersion", sch_deb); ("AlpineLinuxVersion", sch_alpine);
    ("RpmVersion", sch_rpm); ("RubygemsVersion", sch_gem);
-   ("ArchLinuxVersion", sch_arch); ("OpensslVersion", sch_openssl)]%string.
+   ("ArchLinuxVersion", sch_arch); ("OpensslVersion", sch_openssl);
+   ("PypiVersion", sch_pypi); ("MavenVersion", sch_maven)]%string.
 
 Definition find_scheme (name : string) : option vsch :=
   match find (fun p => String.eqb (fst p) name) schemes with Some p => Some (snd p) | None => None end.
